@@ -748,7 +748,7 @@ def _ends_abruptly(body: list) -> bool:
     return bool(body) and isinstance(body[-1], (ast.Continue, ast.Return, ast.Raise, ast.Break))
 
 
-def conditions_for(fn: ast.AST, target: ast.AST, stop: Optional[ast.AST] = None) -> Optional[list]:
+def conditions_for(fn: ast.AST, target: ast.AST, stop: Optional[ast.AST] = None, skip_raise_guards: bool = False) -> Optional[list]:
     """Conditions that necessarily hold when statement `target` (an ast.stmt inside `fn`) starts executing, collected
     from lexically enclosing if/while tests (with polarity) and from earlier sibling guards of the form
     `if T: ...; continue/return/raise/break` (recorded as (T, False)). Stops at loop `stop` (exclusive) when given.
@@ -767,7 +767,8 @@ def conditions_for(fn: ast.AST, target: ast.AST, stop: Optional[ast.AST] = None)
                 if r is not None:
                     return r
                 if not s.orelse and _ends_abruptly(s.body):
-                    local = local + [(s.test, False)]
+                    if not (skip_raise_guards and isinstance(s.body[-1], ast.Raise)):
+                        local = local + [(s.test, False)]
                 elif s.orelse and _ends_abruptly(s.orelse) and not _ends_abruptly(s.body):
                     local = local + [(s.test, True)]
             elif isinstance(s, (ast.For, ast.AsyncFor, ast.While)):
